@@ -392,6 +392,11 @@ def gen_control(quick, seed):
         out.append(ps("forin:%s" % it, "lst = [4, 5]\nfor v in %s {\nprobe(v)\n}\nprobe(v)" % it, pt=STD_PT, tag="for-in"))
         out.append(ps("forin:b:%s" % it, "lst = [4, 5]\nn = 0\nfor v in %s {\nn = n + 1\nif n == 2 { break }\nprobe(v)\n}\nprobe(n)" % it, pt=STD_PT, tag="for-in break"))
         out.append(ps("forin:c:%s" % it, "lst = [4, 5]\nn = 0\nfor v in %s {\nn = n + 1\nif n == 1 { continue }\nprobe(v)\n}\nprobe(n)" % it, pt=STD_PT, tag="for-in continue"))
+    # the loop variable spelled `_` (the alias of message) or `message`: it is assigned like any variable - through the alias
+    for i, t in enumerate(['for _ in [1, 2] {\nprobe(_, message)\n}\nprobe(_, message)', 'for _ in "ab" {\nprobe(_)\nadd_key(k, _)\n}', 'message = "outer"\nfor _ in [7] {\nprobe(message)\n}\nprobe(message, _)',
+                           'for message in [1, 2] {\nprobe(_, message)\n}', 'for _ in {"a": 1} {\nprobe(_, message)\n}\nprobe(message)', '_ = 0\nfor _ in [1, 2, 3] {\n}\nprobe(_, message)',
+                           'for _ in [1, 2] {\nfor message in ["x"] {\nprobe(_, message)\n}\nprobe(_)\n}']):
+        out.append(ps("forin:alias:%d" % i, t, pt=STD_PT, tag="for-in whose loop variable is the message alias"))
     out.append(ps("forin:map2", 'for k in {"a": 1, "b": 2} {\nprobe(k)\n}', maporders=True, tag="for-in over a map: any key order"))
     out.append(ps("forin:map3", 'm = {"a": 1, "b": 2, "c": 3}\ns = 0\nfor k in m {\ns = s + m[k]\n}\nprobe(s)', maporders=True, tag="for-in map sum"))
     for bad in ["5", "nil", "true", "1.5"]:
@@ -443,6 +448,13 @@ probe(i, j)"""
         locs = ["fs", "l2", "fi"][:nloc]
         body = "probe(%s)\n" % ", ".join(["v"] + locs) + "".join("%s = v\n" % l for l in locs)
         scope.append(("v = 0\n" if outer else "") + "for v in %s {\n%s}\nprobe(%s)" % (it, body, ", ".join(["v"] + locs)))
+    # ... also when the iteration before was left through continue (or the one before that through a nested break): a name assigned in
+    # one pass is not there in the next, for every kind of loop
+    for it, first, second in [('["a", "b", "c"]', '"a"', '"b"'), ('"abc"', '"a"', '"b"'), ("[1, 2]", "1", "2")]:
+        for leave in ["if v == %s { continue }" % first, "if v == %s {\nif true { continue }\n}" % first, "for w in [1] { break }", ""]:
+            scope.append("for v in %s {\nif v == %s { probe(r) }\nr = v\n%s\nprobe(8)\n}\nprobe(9)" % (it, second, leave))
+    for leave in ["if i == 0 { continue }", "if i == 0 {\nif true { continue }\n}", ""]:
+        scope.append("for i = 0; i < 3; i = i + 1 {\nif i == 1 { probe(r) }\nr = i\n%s\nprobe(8)\n}\nprobe(9)" % leave)
     # the loop's own scope exists whatever clauses are present: a name first assigned by ANY clause of a three-clause for (also when
     # the init clause is absent) is gone after the loop; reads after the loop see the point's key or nil
     for init, cond, post in itertools.product(["", "i = 0", "fs = 0"], ["", "n < 3"], ["", "last = n", "fi = n", "n = n + 1"]):
@@ -526,7 +538,9 @@ def gen_use(quick, seed):
                 'for c in "xy" {\n%s\nprobe(c)\n}', 'for k in {"a": 1} {\n%s\n}',
                 # several elements still to come, and a statement with an effect before the injected one
                 'for k in {"a": 1, "b": 2} {\nadd_key(cnt, k)\n%s\nprobe(k)\n}', 'for v in [1, 2, 3] {\nprobe(v)\n%s\nprobe(0)\n}',
-                'for c in "xyz" {\nadd_key(cc, c)\n%s\n}']
+                'for c in "xyz" {\nadd_key(cc, c)\n%s\n}',
+                # every kind of branch: else, elif, else nested in else
+                'if false {\nprobe(0)\n} else {\n%s\n}', 'if false {\n} elif true {\n%s\n} else {\nprobe(0)\n}', 'if false {\n} elif false {\n} else {\nif false {\n} else {\n%s\n}\n}']
     # exit() ends its script wherever the call is written: as a statement of its own, as an assignment source, inside a
     # parenthesis, a list, an argument or an operand
     injections = [("exit", "exit()"), ("fail", "q = 1 + nil"), ("failkey", "add_key(kq, 1 + nil)"),
@@ -733,6 +747,13 @@ def gen_hostile(quick, seed):
                  'for e in V {\nprobe(1)\n}', 'x = V + V', 'x = V[0][0][0][0]', 'set_measurement(V)', 'set_measurement(V, true)', 'rename(k, V)', 'xml(V, "/a", o)',
                  'default_time(V)', 'x = load_json(V)', 'if V {\nprobe(1)\n}', 'x = !V', 'x = V && V', 'x = V[0:1]', 'x = V[::-1]', 'probe(len(V))', 'drop_key(V)',
                  'y = V\nadd_key(k)\nk = V\nadd_key(k)', 'x = {"q": V}\nprintf("%v", x)']
+    # two distinct values of the same self-containing shape, compared / searched with each other
+    two = ['a = [1, 0]\na[1] = a\nb = [1, 0]\nb[1] = b', 'a = {"x": 1}\na["x"] = a\nb = {"x": 1}\nb["x"] = b', 'a = [[0]]\na[0][0] = a\nb = [[0]]\nb[0][0] = b',
+           'a = [1, 0]\na[1] = a\nb = [1, [1, 0]]\nb[1][1] = b']
+    for ti, pre in enumerate(two):
+        for si, sink in enumerate(['x = a == b', 'x = a != b', 'x = a in [b]', 'x = [a] == [b]', 'x = [a, 1] != [b, 1]', 'x = b in [1, a]', 'x = {"k": a} == {"k": b}',
+                                   'if a == b {\nprobe(1)\n}', 'x = a == b[1]']):
+            out.append(ps("host:cyc2:%d:%d" % (ti, si), pre + "\n" + sink + "\nprobe(9)", pt=STD_PT, tag="two self-containing values compared with each other"))
     ci = 0
     for pre in cyc_pre:
         var = "a" if pre.startswith("a") or "\na = " in pre else "m"
@@ -804,6 +825,8 @@ CHECK_TEMPLATES = [
     "x = z[@:]", "x = z[:@]", "x = z[::@]", "x = z[1:@]", "x = z[1::@]", "x = z[:1:@]", "x = z[1:2:@]", "x = z[@:1:1]", "x = z[@::1]",
     'x = "abc"[@:]', "x = [1, 2][::@]", "x = z[1:][@:]", "x = len(z)[::@]",
     "len(@)", "add_key(k, @)", "probe(1, @)", "probe(@, 1)", "len(len(@))", "pv(@)", "probe(a = @)", "add_key(k, [1, {\"q\": @}])",
+    # the construct as the OBJECT of a slice / of nested slices (a call may be sliced directly)
+    "x = @[0:1]", "x = @[1:][0:1]", "y = [@[::2]]", "if @[:1] { }", "for v in @[0:2] { }", "add_key(k, @[-1:])",
     # after a valid break / continue earlier in the same loop (in a branch, or unconditional): later statements, later arguments,
     # the post clause and enclosing blocks of that loop are checked like any other
     "for v in [1] { if v { continue }\ny = 1\ny = @ }", "for ;; { if 1 { break }\ny = @ }", "for i = 0; i < 3; i = @ { if i { continue } }",
@@ -1182,6 +1205,11 @@ def gen_extract(quick, seed):
         pt = {"meas": "m", "tags": dict(base_tags), "fields": {"v": int(d["v"]), "fi": 7}}
         add("datetime(v, %s, %s)\nprobe(v)" % (_q(d["prec"]), _q(d["fmt"])), pt, "datetime")
         add("v = %s\ndatetime(v, %s, %s)\nprobe(v)" % (d["v"], _q(d["prec"]), _q(d["fmt"])), {"meas": "m", "tags": {}, "fields": {"fi": 7}}, "datetime on a variable")
+        # the timestamp as text (what grok extracts): plain digits, and a whole reading rendered with decimals; as field, tag and variable
+        for txt in [d["v"], d["v"] + ".0", d["v"] + ".000"]:
+            add("datetime(v, %s, %s)\nprobe(v)" % (_q(d["prec"]), _q(d["fmt"])), {"meas": "m", "tags": dict(base_tags), "fields": {"v": txt, "fi": 7}}, "datetime: text subject")
+            add("datetime(v, %s, %s)\nprobe(v)" % (_q(d["prec"]), _q(d["fmt"])), {"meas": "m", "tags": dict(base_tags, v=txt), "fields": {"fi": 7}}, "datetime: text subject in a tag")
+            add("v = %s\ndatetime(v, %s, %s)\nprobe(v, get_key(v))" % (_q(txt), _q(d["prec"]), _q(d["fmt"])), {"meas": "m", "tags": {}, "fields": {"fi": 7}}, "datetime: text subject in a variable")
     add('datetime(nosuch, "s", "RFC3339")\nprobe(1)', {"meas": "m", "tags": {}, "fields": {}}, "datetime: absent subject")
     for x in cat["xml"]:
         pt = {"meas": "m", "tags": dict(base_tags), "fields": {"doc": x["doc"] if x["doc"] != "7" else 7, "fi": 7}}
